@@ -118,6 +118,8 @@ def mk_field(base, name):
         return base[2][name]
     if base[0] == "agg" and base[1].startswith("adt:") and isinstance(name, int) and name < len(base[2]):
         return base[2][name]
+    if base[0] == "agg" and base[1].startswith("closure:") and isinstance(name, int) and name < len(base[2]):
+        return base[2][name]  # captured value of a closure whose creation is in view
     if base[0] == "agg" and base[1].startswith("adt:") and len(base) > 3 and name in base[3]:
         return base[2][base[3].index(name)]
     if base[0] == "phi":
@@ -292,6 +294,66 @@ class BodyProv:
         self._memo = {}
         self.nlocals = len(body.locals)
 
+    # ---- reference aliases -------------------------------------------------------------------
+    def ref_alias(self, r):
+        """local L if the reference-typed local r can only point to the whole local L (all its
+        definitions are `&mut L` / `&L`, moves or reborrows of such references), else None.
+        Stores through `*r` are then definitions of L and reads of `*r` read L."""
+        al = getattr(self, "_alias", None)
+        if al is None:
+            defs = {}
+            for bi in self.cfg.nodes():
+                b = self.body.blocks[bi]
+                for s in b["stmts"]:
+                    if s["k"] == "assign" and not s["place"]["p"]:
+                        defs.setdefault(s["place"]["l"], []).append(s["rv"])
+                t = b["term"]
+                if t["k"] == "call" and not t["dest"]["p"]:
+                    defs.setdefault(t["dest"]["l"], []).append(None)
+            al = {}
+            cand = {l for l, rvs in defs.items() if l > self.body.arg_count and self.body.locals[l]["ty"].startswith("&") and all(rv is not None for rv in rvs)}
+            changed = True
+            while changed:
+                changed = False
+                for l in sorted(cand):
+                    if l in al:
+                        continue
+                    tg = set()
+                    ok = True
+                    for rv in defs[l]:
+                        if rv["k"] == "ref":
+                            pl = rv["place"]
+                            if not pl["p"] and not self.body.locals[pl["l"]]["ty"].startswith("&"):
+                                tg.add(pl["l"])
+                            elif len(pl["p"]) == 1 and pl["p"][0]["k"] == "deref" and pl["l"] in al:
+                                tg.add(al[pl["l"]])
+                            elif len(pl["p"]) == 1 and pl["p"][0]["k"] == "deref" and pl["l"] in cand:
+                                ok = None  # wait for the other one
+                            else:
+                                ok = False
+                        elif rv["k"] == "use" and rv["op"]["k"] in ("copy", "move") and not rv["op"]["place"]["p"] and rv["op"]["place"]["l"] in al:
+                            tg.add(al[rv["op"]["place"]["l"]])
+                        elif rv["k"] == "use" and rv["op"]["k"] in ("copy", "move") and not rv["op"]["place"]["p"] and rv["op"]["place"]["l"] in cand:
+                            ok = None  # wait for the other one
+                        else:
+                            ok = False
+                    if ok and len(tg) == 1:
+                        al[l] = next(iter(tg))
+                        changed = True
+                    elif ok is False:
+                        cand.discard(l)
+            self._alias = al
+        return al.get(r)
+
+    def eff_place(self, place):
+        """the place with a leading `*r` through an aliasing reference replaced by its target"""
+        p = place["p"]
+        if p and p[0]["k"] == "deref":
+            L = self.ref_alias(place["l"])
+            if L is not None:
+                return {"l": L, "p": p[1:]}
+        return place
+
     # ---- definitions -------------------------------------------------------------------------
     def _defs_of_block(self, bi):
         """list of (idx, local, full) for each definition in block order; idx = stmt index or
@@ -300,7 +362,7 @@ class BodyProv:
         out = []
         for i, s in enumerate(b["stmts"]):
             if s["k"] == "assign":
-                p = s["place"]
+                p = self.eff_place(s["place"])
                 if not p["p"]:
                     out.append((i, p["l"], True))
                 elif p["p"][0]["k"] != "deref":
@@ -404,7 +466,7 @@ class BodyProv:
         if idx == "term":
             return ("call", b["term"]["dest"], b["term"])
         s = b["stmts"][idx]
-        return ("assign", s["place"], s["rv"])
+        return ("assign", self.eff_place(s["place"]), s["rv"])
 
     def local_term(self, l, bb, idx, stack=()):
         key = (l, bb, idx)
@@ -520,6 +582,11 @@ class BodyProv:
             if j < len(proj) and proj[j]["k"] == "field":
                 base = ("upvar", proj[j]["i"])
                 return self.apply_proj(base, proj[j + 1:])
+        if proj and proj[0]["k"] == "deref":
+            L = self.ref_alias(l)
+            if L is not None:
+                # a read through a reference that can only point to L reads L as it is *now*
+                return self.apply_proj(self.local_term(L, bb, idx, stack), proj[1:])
         base = self.local_term(l, bb, idx, stack)
         return self.apply_proj(base, proj)
 
